@@ -187,8 +187,9 @@ func checkFieldAssignment(
 		return nil
 	}
 
+	receiverType = types.Unalias(receiverType)
 	if ptr, ok := receiverType.(*types.Pointer); ok {
-		receiverType = ptr.Elem()
+		receiverType = types.Unalias(ptr.Elem())
 	}
 
 	named, ok := receiverType.(*types.Named)
@@ -241,8 +242,9 @@ func checkIndexAssignment(
 		return nil
 	}
 
+	receiverType = types.Unalias(receiverType)
 	if ptr, ok := receiverType.(*types.Pointer); ok {
-		receiverType = ptr.Elem()
+		receiverType = types.Unalias(ptr.Elem())
 	}
 
 	named, ok := receiverType.(*types.Named)
@@ -317,8 +319,9 @@ func checkFieldIncDec(
 		return nil
 	}
 
+	receiverType = types.Unalias(receiverType)
 	if ptr, ok := receiverType.(*types.Pointer); ok {
-		receiverType = ptr.Elem()
+		receiverType = types.Unalias(ptr.Elem())
 	}
 
 	named, ok := receiverType.(*types.Named)
@@ -438,8 +441,9 @@ func checkCompoundLHS(
 		return nil
 	}
 
+	receiverType = types.Unalias(receiverType)
 	if ptr, ok := receiverType.(*types.Pointer); ok {
-		receiverType = ptr.Elem()
+		receiverType = types.Unalias(ptr.Elem())
 	}
 
 	named, ok := receiverType.(*types.Named)
